@@ -6,8 +6,12 @@ package main
 // (kernel-checked tie for these leaves, instead of sampling). The accepted Go subset is
 // deliberately tiny: parameters and results of integer/bool/error type (error = Bool
 // "failed"), structs of integer fields, := / = / op= assignments, if / else, tagless switch,
-// return, calls of other translated leaves, integer and comparison operators. Anything
-// else is reported as a broken tie.
+// return, calls of other translated leaves, integer and comparison operators; and, second
+// generation: time.Time values (an Int count of nanoseconds, operations from the hand-written
+// prelude Model/GoPrelude.lean: Sub, Unix, Nanosecond, Before, After, UTC, time.Unix),
+// panic(...) (the function then returns an Option, none = panic), conversions between
+// integer widths, int64 shifts by constants, nested field selection, struct literals of
+// translated struct types. Anything else is reported as a broken tie.
 
 import (
 	"fmt"
@@ -37,6 +41,17 @@ var leaves = []leafSpec{
 	{"net/ntp", "ValidateResponseMetadata", "ntp_ValidateResponseMetadata"},
 	{"base/unixutil", "TimevalFromNsec", "unixutil_TimevalFromNsec"},
 	{"net/csptp", "DurationFromTimeInterval", "csptp_DurationFromTimeInterval"},
+	// second generation (time.Time values, panics, width conversions, nested fields)
+	{"net/ntp", "ClockOffset", "ntp_ClockOffset"},
+	{"net/ntp", "RoundTripDelay", "ntp_RoundTripDelay"},
+	{"net/ntp", "ValidateResponseTimestamps", "ntp_ValidateResponseTimestamps"},
+	{"net/ntp", "Time64FromTime", "ntp_Time64FromTime"},
+	{"net/ntp", "TimeFromTime64", "ntp_TimeFromTime64"},
+	{"net/csptp", "C2SDelay", "csptp_C2SDelay"},
+	{"net/csptp", "S2CDelay", "csptp_S2CDelay"},
+	{"net/csptp", "MeanPathDelay", "csptp_MeanPathDelay"},
+	{"net/csptp", "ClockOffset", "csptp_ClockOffset"},
+	{"net/ntske", "Key.IsValidAt", "ntske_Key_IsValidAt"},
 }
 
 var leanInt = map[string]string{
@@ -52,6 +67,7 @@ type leafCtx struct {
 	vars    map[string]string      // variable -> lean type
 	ret     string                 // lean result type ("" = tuple / unknown)
 	err     error
+	panics  bool              // the function contains panic(...): it returns Option (none = panic)
 	leafOf  map[string]string // "Recv.Name" / "Name" in this dir -> lean name
 	retOf   map[string]string
 }
@@ -75,6 +91,11 @@ func typeName(e ast.Expr) string {
 }
 
 func (c *leafCtx) leanType(e ast.Expr) string {
+	if se, ok := e.(*ast.SelectorExpr); ok {
+		if id, ok := se.X.(*ast.Ident); ok && id.Name == "time" && se.Sel.Name == "Time" {
+			return "GoTime"
+		}
+	}
 	n := typeName(e)
 	if l, ok := leanInt[n]; ok {
 		return l
@@ -99,6 +120,89 @@ func (c *leafCtx) lit(v constant.Value, want string) string {
 		want = "Int64"
 	}
 	return fmt.Sprintf("(%s : %s)", v.ExactString(), want)
+}
+
+// isValue reports whether e denotes a value built from a variable of the function (as
+// opposed to a package-qualified constant such as time.Second).
+func (c *leafCtx) isValue(e ast.Expr) bool {
+	switch x := e.(type) {
+	case *ast.Ident:
+		_, ok := c.vars[x.Name]
+		return ok
+	case *ast.ParenExpr:
+		return c.isValue(x.X)
+	case *ast.SelectorExpr:
+		return c.isValue(x.X)
+	case *ast.CallExpr:
+		if f, ok := x.Fun.(*ast.SelectorExpr); ok {
+			if id, ok := f.X.(*ast.Ident); ok && id.Name == "time" && f.Sel.Name == "Unix" {
+				return true
+			}
+			return c.isValue(f.X)
+		}
+	}
+	return false
+}
+
+// leanTypeName is the Lean spelling of an internal type name.
+func leanTypeName(t string) string {
+	if t == "GoTime" {
+		return "Int"
+	}
+	return t
+}
+
+// convert renders the Go conversion of a value of integer type from to integer type to
+// (two's complement truncation / sign or zero extension, as in Go), through 64-bit values.
+func convert(a, from, to string) (string, bool) {
+	if from == to {
+		return a, true
+	}
+	if !isIntType(from) || !isIntType(to) {
+		return a, false
+	}
+	up := map[string]string{"Int64": "", "UInt64": "", "Int32": ".toInt64", "Int16": ".toInt64", "Int8": ".toInt64",
+		"UInt32": ".toUInt64", "UInt16": ".toUInt64", "UInt8": ".toUInt64"}
+	down := map[string]string{"Int64": "", "UInt64": "", "Int32": ".toInt32", "Int16": ".toInt16", "Int8": ".toInt8",
+		"UInt32": ".toUInt32", "UInt16": ".toUInt16", "UInt8": ".toUInt8"}
+	signed := func(t string) bool { return strings.HasPrefix(t, "Int") }
+	e := "(" + a + ")" + up[from] // now Int64 (signed source) or UInt64 (unsigned source)
+	if signed(from) != signed(to) {
+		if signed(from) {
+			e += ".toUInt64"
+		} else {
+			e += ".toInt64"
+		}
+	}
+	return "(" + e + down[to] + ")", true
+}
+
+// timeMethod translates a method call on a time.Time value (prelude Model/GoPrelude.lean).
+func (c *leafCtx) timeMethod(recv, name string, args []ast.Expr) (string, string, bool) {
+	switch {
+	case name == "Sub" && len(args) == 1:
+		a, t := c.expr(args[0], "GoTime")
+		if t == "GoTime" {
+			return "(Go.Time.sub " + recv + " " + a + ")", "Int64", true
+		}
+	case name == "Before" && len(args) == 1:
+		a, t := c.expr(args[0], "GoTime")
+		if t == "GoTime" {
+			return "(Go.Time.before " + recv + " " + a + ")", "Bool", true
+		}
+	case name == "After" && len(args) == 1:
+		a, t := c.expr(args[0], "GoTime")
+		if t == "GoTime" {
+			return "(Go.Time.after " + recv + " " + a + ")", "Bool", true
+		}
+	case name == "Unix" && len(args) == 0:
+		return "(Go.Time.unix " + recv + ")", "Int64", true
+	case name == "Nanosecond" && len(args) == 0:
+		return "(Go.Time.nanosecond " + recv + ")", "Int64", true
+	case name == "UTC" && len(args) == 0:
+		return recv, "GoTime", true
+	}
+	return "", "", false
 }
 
 // expr translates e; want is the expected Lean type ("" = unknown); returns code and type.
@@ -129,16 +233,17 @@ func (c *leafCtx) expr(e ast.Expr, want string) (string, string) {
 		}
 		return c.lit(v, want), want
 	case *ast.SelectorExpr:
-		if id, ok := x.X.(*ast.Ident); ok {
-			if t, ok := c.vars[id.Name]; ok && strings.HasPrefix(t, "S_") {
+		if c.isValue(x.X) {
+			recv, t := c.expr(x.X, "")
+			if strings.HasPrefix(t, "S_") {
 				for _, f := range c.structs[strings.TrimPrefix(t, "S_")] {
 					if f[0] == x.Sel.Name {
-						return id.Name + "." + f[0], f[1]
+						return recv + "." + f[0], f[1]
 					}
 				}
-				c.fail("unknown field %s.%s", id.Name, x.Sel.Name)
-				return "0", want
 			}
+			c.fail("unknown field %s", x.Sel.Name)
+			return "0", want
 		}
 		v := c.ev.eval(x, 0)
 		if v.Kind() == constant.Unknown {
@@ -157,15 +262,35 @@ func (c *leafCtx) expr(e ast.Expr, want string) (string, string) {
 		c.fail("unsupported unary operator %s", x.Op)
 		return a, t
 	case *ast.CallExpr:
-		// conversion T(x) between integer types of the same Lean type, or a call of another leaf
+		// conversion T(x) between integer types, a time.Time operation, or a call of another leaf
 		if len(x.Args) == 1 {
-			if lt, ok := leanInt[typeName(x.Fun)]; ok {
+			if lt, ok := leanInt[typeName(x.Fun)]; ok && isIntType(lt) {
 				a, t := c.expr(x.Args[0], lt)
-				if t == lt || t == "" {
+				if t == "" {
 					return a, lt
+				}
+				if r, ok := convert(a, t, lt); ok {
+					return r, lt
 				}
 				c.fail("unsupported conversion %s -> %s", t, lt)
 				return a, lt
+			}
+		}
+		if f, ok := x.Fun.(*ast.SelectorExpr); ok {
+			if id, ok := f.X.(*ast.Ident); ok && id.Name == "time" && f.Sel.Name == "Unix" && len(x.Args) == 2 {
+				a, _ := c.expr(x.Args[0], "Int64")
+				b, _ := c.expr(x.Args[1], "Int64")
+				return "(Go.unixTime " + a + " " + b + ")", "GoTime"
+			}
+			if c.isValue(f.X) {
+				if recv, t := c.peek(f.X); t == "GoTime" {
+					recv, _ = c.expr(f.X, "GoTime")
+					if r, rt, ok := c.timeMethod(recv, f.Sel.Name, x.Args); ok {
+						return r, rt
+					}
+					c.fail("unsupported time.Time method %s", f.Sel.Name)
+					return "0", want
+				}
 			}
 		}
 		name := ""
@@ -174,10 +299,10 @@ func (c *leafCtx) expr(e ast.Expr, want string) (string, string) {
 		case *ast.Ident:
 			name = f.Name
 		case *ast.SelectorExpr:
-			if id, ok := f.X.(*ast.Ident); ok {
-				if t, ok := c.vars[id.Name]; ok && strings.HasPrefix(t, "S_") {
+			if c.isValue(f.X) {
+				if recv, t := c.expr(f.X, ""); strings.HasPrefix(t, "S_") {
 					name = strings.TrimPrefix(t, "S_") + "." + f.Sel.Name
-					args = append(args, id.Name)
+					args = append(args, recv)
 				}
 			}
 		}
@@ -223,9 +348,21 @@ func (c *leafCtx) expr(e ast.Expr, want string) (string, string) {
 			return "(" + a + " ||| " + b + ")", t
 		case token.XOR:
 			return "(" + a + " ^^^ " + b + ")", t
-		case token.SHL:
-			return "(" + a + " <<< " + b + ")", t
-		case token.SHR:
+		case token.SHL, token.SHR:
+			if t == "Int64" { // signed shifts by a constant: arithmetic definitions of the prelude
+				if v := c.ev.eval(x.Y, 0); v.Kind() == constant.Int {
+					fn := "Go.shl64"
+					if x.Op == token.SHR {
+						fn = "Go.shr64"
+					}
+					return "(" + fn + " " + a + " " + v.ExactString() + ")", t
+				}
+				c.fail("int64 shift by a non-constant")
+				return a, t
+			}
+			if x.Op == token.SHL {
+				return "(" + a + " <<< " + b + ")", t
+			}
 			return "(" + a + " >>> " + b + ")", t
 		case token.LSS, token.LEQ, token.GTR, token.GEQ:
 			return "(decide (" + a + " " + x.Op.String() + " " + b + "))", "Bool"
@@ -236,7 +373,34 @@ func (c *leafCtx) expr(e ast.Expr, want string) (string, string) {
 		}
 		c.fail("unsupported binary operator %s", x.Op)
 		return a, t
-	case *ast.CompositeLit: // result record of a foreign struct type: a tuple in field order
+	case *ast.CompositeLit: // a translated struct type: structure instance; a foreign one: tuple in field order
+		if fs, ok := c.structs[typeName(x.Type)]; ok && x.Type != nil {
+			var parts []string
+			for _, el := range x.Elts {
+				kv, ok := el.(*ast.KeyValueExpr)
+				key, _ := kv.Key.(*ast.Ident)
+				if !ok || key == nil {
+					c.fail("unsupported composite literal")
+					return "0", ""
+				}
+				ft := ""
+				for _, f := range fs {
+					if f[0] == key.Name {
+						ft = f[1]
+					}
+				}
+				if ft == "" {
+					c.fail("unknown field %s in literal", key.Name)
+					return "0", ""
+				}
+				v, vt := c.expr(kv.Value, ft)
+				if vt != ft && vt != "" {
+					c.fail("field %s: %s value for %s", key.Name, vt, ft)
+				}
+				parts = append(parts, key.Name+" := "+v)
+			}
+			return "{ " + strings.Join(parts, ", ") + " : S_" + typeName(x.Type) + " }", "S_" + typeName(x.Type)
+		}
 		var parts []string
 		for _, el := range x.Elts {
 			kv, ok := el.(*ast.KeyValueExpr)
@@ -279,9 +443,34 @@ func assigned(stmts []ast.Stmt, set map[string]bool) {
 	}
 }
 
+func isPanic(s ast.Stmt) bool {
+	if es, ok := s.(*ast.ExprStmt); ok {
+		if ce, ok := es.X.(*ast.CallExpr); ok {
+			if id, ok := ce.Fun.(*ast.Ident); ok && id.Name == "panic" {
+				return true
+			}
+		}
+	}
+	return false
+}
+
+func hasPanic(n ast.Node) bool {
+	found := false
+	ast.Inspect(n, func(n ast.Node) bool {
+		if s, ok := n.(ast.Stmt); ok && isPanic(s) {
+			found = true
+		}
+		return !found
+	})
+	return found
+}
+
 func returns(stmts []ast.Stmt) bool {
 	if len(stmts) == 0 {
 		return false
+	}
+	if isPanic(stmts[len(stmts)-1]) {
+		return true
 	}
 	switch s := stmts[len(stmts)-1].(type) {
 	case *ast.ReturnStmt:
@@ -323,6 +512,9 @@ func (c *leafCtx) block(stmts []ast.Stmt, tail string, ind string) string {
 			return "0"
 		}
 		e, _ := c.expr(st.Results[0], c.ret)
+		if c.panics {
+			return "some (" + e + ")"
+		}
 		return e
 	case *ast.AssignStmt:
 		if len(st.Lhs) == 2 && len(st.Rhs) == 2 && st.Tok == token.ASSIGN || len(st.Lhs) != 1 || len(st.Rhs) != 1 {
@@ -351,10 +543,13 @@ func (c *leafCtx) block(stmts []ast.Stmt, tail string, ind string) string {
 			t = "Int64"
 		}
 		c.vars[id.Name] = t
-		return "let " + id.Name + " : " + t + " := " + e + "\n" + ind + c.block(rest, tail, ind)
+		return "let " + id.Name + " : " + leanTypeName(t) + " := " + e + "\n" + ind + c.block(rest, tail, ind)
 	case *ast.DeclStmt:
 		return c.block(rest, tail, ind) // `var x T` without value: variables are introduced at first assignment
 	case *ast.ExprStmt:
+		if isPanic(st) && c.panics {
+			return "none"
+		}
 		c.fail("unsupported expression statement")
 		return "0"
 	case *ast.IfStmt:
@@ -439,12 +634,35 @@ func (c *leafCtx) block(stmts []ast.Stmt, tail string, ind string) string {
 	return "0"
 }
 
+// structFields lists the translatable fields of a struct type; an anonymous struct-typed field
+// F of struct T becomes the named struct T_F.
+func structFields(c0 *leafCtx, structs map[string][][2]string, name string, st *ast.StructType) [][2]string {
+	var fs [][2]string
+	for _, fl := range st.Fields.List {
+		lt := c0.leanType(fl.Type)
+		if inner, ok := fl.Type.(*ast.StructType); ok && len(fl.Names) == 1 {
+			sub := name + "_" + fl.Names[0].Name
+			if subfs := structFields(c0, structs, sub, inner); len(subfs) > 0 {
+				structs[sub] = subfs
+				lt = "S_" + sub
+			}
+		}
+		if lt == "" {
+			continue // a field outside the subset: leaves that use it fail to translate
+		}
+		for _, n := range fl.Names {
+			fs = append(fs, [2]string{n.Name, lt})
+		}
+	}
+	return fs
+}
+
 func emitLeaves(repo string, parsed map[string][]*ast.File, fset *token.FileSet, outPath string) {
 	var sb strings.Builder
 	sb.WriteString("/- GENERATED by harness/extract (leaf translator) from /repo on every run — do not edit.\n")
 	sb.WriteString("   Each definition is the Go function of the same name, statement by statement, over\n")
 	sb.WriteString("   fixed-width integers (Go's wrap-around and truncating division are Lean's). -/\n")
-	sb.WriteString("set_option linter.unusedVariables false\nnamespace ScionTime.Gen.Leaf\n\n")
+	sb.WriteString("import ScionTime.Model.GoPrelude\nset_option linter.unusedVariables false\nnamespace ScionTime.Gen.Leaf\nopen ScionTime\n\n")
 	byDir := map[string][]leafSpec{}
 	var dirs []string
 	for _, l := range leaves {
@@ -497,19 +715,8 @@ func emitLeaves(repo string, parsed map[string][]*ast.File, fset *token.FileSet,
 				for _, s := range gd.Specs {
 					if sp, ok := s.(*ast.TypeSpec); ok {
 						if st, ok := sp.Type.(*ast.StructType); ok {
-							var fs [][2]string
-							okAll := true
-							for _, fl := range st.Fields.List {
-								lt := c0.leanType(fl.Type)
-								if lt == "" {
-									okAll = false
-									break
-								}
-								for _, n := range fl.Names {
-									fs = append(fs, [2]string{n.Name, lt})
-								}
-							}
-							if okAll && len(fs) > 0 {
+							fs := structFields(c0, structs, sp.Name.Name, st)
+							if len(fs) > 0 {
 								structs[sp.Name.Name] = fs
 							} else {
 								delete(structs, sp.Name.Name)
@@ -525,7 +732,7 @@ func emitLeaves(repo string, parsed map[string][]*ast.File, fset *token.FileSet,
 		for _, l := range byDir[dir] {
 			fd := findFunc(files, l.fn)
 			if fd == nil {
-				broken("leaf %s.%s: function not found", dir, l.fn)
+				withOwner("leaf:"+l.lean, func() { broken("leaf %s.%s: function not found", dir, l.fn) })
 				continue
 			}
 			c := &leafCtx{dir: dir, files: files, ev: ev, structs: structs, vars: map[string]string{}, leafOf: leafOf, retOf: retOf}
@@ -540,7 +747,7 @@ func emitLeaves(repo string, parsed map[string][]*ast.File, fset *token.FileSet,
 					used[strings.TrimPrefix(lt, "S_")] = true
 				}
 				c.vars[n] = lt
-				params = append(params, "("+n+" : "+lt+")")
+				params = append(params, "("+n+" : "+leanTypeName(lt)+")")
 			}
 			if fd.Recv != nil {
 				addParam(fd.Recv.List[0].Names[0].Name, fd.Recv.List[0].Type)
@@ -555,14 +762,20 @@ func emitLeaves(repo string, parsed map[string][]*ast.File, fset *token.FileSet,
 				ret = c.leanType(fd.Type.Results.List[0].Type)
 			}
 			c.ret = ret
+			c.panics = hasPanic(fd.Body)
 			body := c.block(fd.Body.List, "", "  ")
 			if c.err != nil {
-				broken("leaf %s.%s: %v", dir, l.fn, c.err)
+				withOwner("leaf:"+l.lean, func() { broken("leaf %s.%s: %v", dir, l.fn, c.err) })
 				continue
 			}
 			sig := "def " + l.lean + " " + strings.Join(params, " ")
-			if ret != "" {
-				sig += " : " + ret
+			if ret != "" && c.panics {
+				sig += " : Option " + leanTypeName(ret)
+			} else if ret != "" {
+				sig += " : " + leanTypeName(ret)
+			}
+			if c.panics && ret == "" {
+				c.fail("panic in a function without a single translated result type")
 			}
 			pos := fset.Position(fd.Pos())
 			defs = append(defs, fmt.Sprintf("/-- %s: %s (line %d) -/\n%s :=\n  %s\n", dir, l.fn, pos.Line, sig, body))
@@ -606,7 +819,7 @@ func emitLeaves(repo string, parsed map[string][]*ast.File, fset *token.FileSet,
 		for _, n := range names {
 			fmt.Fprintf(&sb, "structure S_%s where\n", n)
 			for _, f := range structs[n] {
-				fmt.Fprintf(&sb, "  %s : %s\n", f[0], f[1])
+				fmt.Fprintf(&sb, "  %s : %s\n", f[0], leanTypeName(f[1]))
 			}
 			sb.WriteString("\n")
 		}
